@@ -231,6 +231,53 @@ fn run(ctx: &mut Ctx) {
         }
         ctx.count("slices scanned");
     });
+    // ---- history: consecutive lookups with the same t and slowly changing z (descending and ascending through every
+    // slice bound), and with the same z and changing t: each lookup still has to equal the reference
+    ctx.cases("sweeps", 8, |ctx, i, rng| {
+        let t = match i {
+            0 => 0.0,
+            1 => -0.0,
+            2 => 8e-9,
+            3 => 3.96e-6,
+            _ => rng.range(0.0, 3.9e-6),
+        };
+        let step = if thorough { 0.00005 } else { 0.00025 };
+        let mut z = 1.1525;
+        while z > -0.002 {
+            let zz = if i % 2 == 0 { z } else { -z };
+            if probe(ctx, &d, zz, t, "z sweep (descending |z|) at fixed t").is_none() {
+                return;
+            }
+            z -= step;
+        }
+        let mut z = 0.0;
+        while z < 1.1525 {
+            if probe(ctx, &d, z, t, "z sweep (ascending |z|) at fixed t").is_none() {
+                return;
+            }
+            z += step * 1.7;
+        }
+        ctx.count("fixed-t sweeps of z across all slice bounds");
+    });
+    ctx.cases("signed-zero", 1, |ctx, _i, _rng| {
+        for (s, (tab, ub)) in d.iter().enumerate() {
+            let prev_ub = if s == 0 { 0.0 } else { d[s - 1].1 };
+            for z in [*ub, -*ub, 0.5 * (prev_ub + ub)] {
+                for t in [-0.0f64, 0.0] {
+                    match probe(ctx, &d, z, t, "t = +-0.0") {
+                        Some(Look::Ok(r, _)) if (r - tab[0].1).abs() <= 1e-12 => ctx.count("lookups at t = +-0.0 reproduce the first knot"),
+                        Some(other) => {
+                            if tab[0].0 == 0.0 {
+                                ctx.violation("lookup at t = -0.0 / +0.0 does not reproduce the first tabulated radius", format!("slice {} z {} t {:?}: {:?}", s, z, t, other), json!({"z": z, "t_bits": t.to_bits()}));
+                                return;
+                            }
+                        }
+                        None => return,
+                    }
+                }
+            }
+        }
+    });
     ctx.cases("zrange", 1, |ctx, _i, _rng| {
         for z in [next_up(zmax), 1.2, 1.3, -next_up(zmax), -1.3, 1e9, f64::MAX, f64::INFINITY, f64::NEG_INFINITY] {
             for t in [1e-6, 0.0, -1.0, 1.0] {
